@@ -554,6 +554,10 @@ def _ranges(col, crate, impls, sfx):
                                 kk -= 1 << bits
                             t2 = ("bin", "Ne", t2, ("int", kk))
                             f = ("eq", t2, 1 if f[0] == "ne" else 0)
+                        if f[0] == "eq" and isinstance(t2, tuple) and t2[0] == "bin" and t2[1] == "Eq" and f[2] in (0, 1):
+                            # start == MIN / end == MAX tested positively: the same fact with the other polarity
+                            t2 = ("bin", "Ne", t2[2], t2[3])
+                            f = ("eq", t2, 1 - f[2])
                         if f[0] == "eq" and isinstance(t2, tuple) and t2[0] == "bin" and t2[1] == "Ne" and t2[2] in base and t2[3][0] == "int":
                             v0 = base[t2[2]]
                             if f[2] == 1 and t2[3][1] == lo and v0.lo.a == 1:
